@@ -249,6 +249,21 @@ func (w *worker[T, JobType]) reserveSlot() {
 	w.curProcessing.Add(1)
 }
 
+// tryReserveSlot reserves a slot only while fewer than the concurrency limit are taken. The check
+// and the increment are one atomic step: a dispatcher loop of a previous run that has not yet seen
+// its closed signal channel (Stop and Restart do not wait for it) cannot push the worker over the limit.
+func (w *worker[T, JobType]) tryReserveSlot() bool {
+	for {
+		cur := w.curProcessing.Load()
+		if cur >= w.concurrency.Load() {
+			return false
+		}
+		if w.curProcessing.CompareAndSwap(cur, cur+1) {
+			return true
+		}
+	}
+}
+
 // releaseSlot gives a reserved slot back when no job was dispatched into it.
 func (w *worker[T, JobType]) releaseSlot() {
 	w.releaseWaiters(w.curProcessing.Add(^uint32(0)))
@@ -474,7 +489,9 @@ func (w *worker[T, JobType]) goEventLoop() {
 			for w.IsRunning() && w.curProcessing.Load() < w.concurrency.Load() && w.queues.Len() > 0 {
 				// Pause stores the status and then waits for the reserved slots to drain. Having
 				// reserved, look again: either this check sees the pause or the waiter sees the slot.
-				w.reserveSlot()
+				if !w.tryReserveSlot() {
+					break
+				}
 				if !w.IsRunning() {
 					w.releaseSlot()
 					break
